@@ -9,12 +9,41 @@ TOOLS = ["gen-bundle", "dump-bundle", "sign-bundle", "gen-signedexchange", "dump
 NAMES = {
     "plain": ["a.txt", "style.css"], "space": ["a b.txt"], "hash": ["h#frag.txt"], "qmark": ["a?b"], "pct": ["p%41.txt", "100%.txt"],
     "colon": ["x:y", "a.txt"], "nonascii": ["été.txt", "日本.html"], "nested": ["sub/dir/f.js", "sub/g.txt"], "empty": ["empty.bin", "a.txt"],
+    "dotfiles": [".well-known/x.json", ".htaccess", "a.txt", "sub/.hidden/.y"],
     "indexroot": ["index.html", "a.txt"], "indexnested": ["sub/index.html", "sub/b.txt", "c.txt"], "plus": ["a+b.txt", "c,d;e=f.txt"], "amp": ["a&b.txt", "q'z(1).txt"],
 }
 
 
 _RUNS = 0
 STALE_ALWAYS = False
+# flags whose value names an existing input FILE: every other spelling of the same file must give the same result
+INPUT_FLAGS = ("-i", "-pem", "-ocsp", "-content", "-certificate", "-privateKey", "-publicKey", "-cert", "-har")
+SPELLINGS = ("plain", "symlink", "relative", "dotted", "plain", "symlink2")
+_LINKS = 0
+
+
+def respell(path, cwd, form):
+    """Another spelling of an existing input file: through a symbolic link (in the same or in another directory), relative
+    to the working directory, with redundant path segments."""
+    global _LINKS
+    if not os.path.isabs(path) or not os.path.isfile(path):
+        return path
+    d, base = os.path.split(path)
+    if form in ("symlink", "symlink2"):
+        _LINKS += 1
+        ld = d if form == "symlink" else os.path.join(cwd, ".links")
+        os.makedirs(ld, exist_ok=True)
+        link = os.path.join(ld, "current-%d-%s" % (_LINKS, base))
+        try:
+            os.symlink(path if form == "symlink2" else base, link)
+        except OSError:
+            return path
+        return link
+    if form == "relative":
+        return os.path.relpath(path, cwd)
+    if form == "dotted":
+        return "%s/./../%s//%s" % (d, os.path.basename(d), base) if os.path.basename(d) else path
+    return path
 
 
 def b(s):
@@ -51,6 +80,16 @@ def run(tool, args, cwd, env=None, timeout=60):
                         f.write(b"stale bytes of an earlier build\n" * 8000)
                 except OSError:
                     pass
+    args = list(args)
+    outs = {os.path.realpath(os.path.join(cwd, args[i + 1])) for i in range(len(args) - 1) if args[i] == "-o"}
+    k = 0
+    for i in range(len(args) - 1):
+        if args[i] in INPUT_FLAGS:
+            k += 1
+            form = SPELLINGS[(_RUNS + k) % len(SPELLINGS)]
+            if os.path.realpath(args[i + 1]) in outs and form != "plain":
+                form = "relative"       # in-place use: the input keeps naming the file the output replaces
+            args[i + 1] = respell(args[i + 1], cwd, form)
     try:
         p = subprocess.run([os.path.join(CLI, tool)] + args, cwd=cwd, env=e, capture_output=True, timeout=timeout, stdin=subprocess.DEVNULL)
         return p.returncode, p.stdout, p.stderr
@@ -81,13 +120,19 @@ def _dir_pipeline(pl, sd, fix, info, cid):
     origin = {"port": "https://example.com:8443", "otherhost": "https://other.example"}.get(p1["base"], "https://example.com")
     base = origin + ("/app/v1/" if p1["base"] == "sub" else "/")
     out = os.path.join(sd, "out.wbn")
-    args = ["-dir", d, "-baseURL", base, "-version", p1["ver"], "-o", out]
+    form = p1.get("dirform", "abs")
+    cwd = sd
+    os.makedirs(os.path.join(sd, "other"), exist_ok=True)
+    dspell = {"abs": d, "rel": "site", "dotslash": "./site", "trailing": "site/", "dotend": "site/.", "dslash": "site//", "updown": "other/../site", "cwd": "."}[form]
+    if form == "cwd":
+        cwd = d
+    args = ["-dir", dspell, "-baseURL", base, "-version", p1["ver"], "-o", out]
     if p1["ver"] == "b1":
         args += ["-primaryURL", base + names[-1].split("/")[0] if False else base, "-ignoreErrors"]
     if p1.get("override") == "variants":
         args += ["-headerOverride", "Variants: Accept-Language;en;fr"]
-    rc, so, se = run("gen-bundle", args, sd)
-    ev = {"case": cid, "kind": "dirbundle", "ver": p1["ver"], "names": p1["names"], "basepath": b(base[len(origin):]), "origin": b(origin), "covered": p1["base"] != "otherhost", "files": files,
+    rc, so, se = run("gen-bundle", args, cwd)
+    ev = {"case": cid, "kind": "dirbundle", "dirform": form, "ver": p1["ver"], "names": p1["names"], "basepath": b(base[len(origin):]), "origin": b(origin), "covered": p1["base"] != "otherhost", "files": files,
           "gen_exit": rc, "file": list(read(out)), "sign": "none", "dump_exit": -1, "sign_exit": -1, "dump2_exit": -1,
           "marks": {"signed": 0, "notsigned": 0, "verr": 0, "sigerr": 0}, "stderr": se.decode("latin1")[-300:]}
     events = [ev]
@@ -164,6 +209,62 @@ def _sxg_pipeline(pl, sd, fix, info, cid):
     rc2, so2, se2 = run("dump-signedexchange", ["-i", out, "-verify", "-cert", cp], sd)
     return [{"case": cid, "kind": "sxgcli", "ver": p1["ver"], "gen_exit": rc if rcg == 0 else 90, "file": list(read(out)), "leaf": info[p1["curve"] + "-leaf"],
              "t": {"s": list((t0 + 1).to_bytes(8, "big")), "ns": 0}, "content": list(content), "dump_exit": rc2, "valid": b"The exchange has a valid signature." in so2,
+             "params": p1, "stderr": (se + se2 + so2[-200:]).decode("latin1")[-400:]}]
+
+
+HDR_FLAGS = {
+    "none": ([], []),
+    "colon": ([], ["Link: <https://example.com/style.css>;rel=preload;as=style", "Content-Location: https://example.com:443/a:b", "X-Time:12:30:45", "Last-Modified: Mon, 07 Jan 2019 07:29:39 GMT"]),
+    "repeat": ([], ["Cache-Control: max-age=600", "Cache-Control: public", "X-Multi: a", "x-multi: b", "X-MULTI:c", "Vary: Accept", "Content-Type: text/plain", "Vary: Accept-Language"]),
+    "pad": ([], ["X-Pad:    v  w   ", "X-Empty:", " X-Lead : lead", "X-Tab:\tt\t"]),
+    "request": (["Accept: text/html;q=0.9, */*;q=0.8", "Referer: https://example.com/a:b?c=d", "Accept-Language: en", "accept-language: fr;q=0.5", "X-Req:  padded  "],
+                ["X-Resp: r:1"]),
+}
+
+
+def _split_flag(h):
+    n, v = h.split(":", 1)
+    return {"n": b(n.strip(" \t\r\n\v\f")), "v": b(v.strip(" \t\r\n\v\f"))}
+
+
+def _sxgflags_pipeline(pl, sd, fix, info, cid):
+    """gen-signedexchange as a relation between the TEXT of its flags and the file: every -requestHeader / -responseHeader
+    value (name = text before the first colon, value = the rest, both trimmed; one name given several times = one field with
+    the values comma-joined in flag order), -uri, -method, -status, -date; the two debugging dumps; output to stdout."""
+    p1 = pl[1]["p"]
+    rcg, sog, seg = run("gen-certurl", ["-pem", os.path.join(fix, "p256-cert1.pem"), "-ocsp", os.path.join(fix, "ocsp.der")], sd)
+    cp = os.path.join(sd, "cert.cbor")
+    open(cp, "wb").write(sog)
+    content = b"<p>flags</p>" * 3
+    open(os.path.join(sd, "payload"), "wb").write(content)
+    out = os.path.join(sd, "out.sxg")
+    uri = "https://example.com/dir/doc.html?q=a:b"
+    status = 200 if p1["hdr"] != "pad" else 404
+    reqf, respf = HDR_FLAGS[p1["hdr"]]
+    if p1["ver"] == "1b3":
+        reqf = []
+    args = ["-version", p1["ver"], "-uri", uri, "-status", str(status), "-method", p1["method"], "-content", os.path.join(sd, "payload"),
+            "-certificate", os.path.join(fix, "p256-cert1.pem"), "-privateKey", os.path.join(fix, "p256-sec1.key"),
+            "-certUrl", "https://example.com/cert.cbor", "-validityUrl", "https://example.com/validity", "-miRecordSize", "16", "-expire", "1h",
+            "-dumpSignatureMessage", os.path.join(sd, "msg.bin"), "-dumpHeadersCbor", os.path.join(sd, "hdr.cbor")]
+    for h in reqf:
+        args += ["-requestHeader", h]
+    for h in respf:
+        args += ["-responseHeader", h]
+    t0 = int(time.time())
+    if p1["date"] == "fixed":
+        args += ["-date", "2021-03-04T05:06:07Z"]
+        t0 = 1614834367 - 1
+    args += ["-o", "-" if p1["out"] == "stdout" else out]
+    rc, so, se = run("gen-signedexchange", args, sd)
+    if p1["out"] == "stdout":
+        open(out, "wb").write(so)
+    rc2, so2, se2 = run("dump-signedexchange", ["-i", out, "-verify", "-cert", cp], sd)
+    return [{"case": cid, "kind": "sxgflags", "ver": p1["ver"], "gen_exit": rc if rcg == 0 else 90, "file": list(read(out)), "leaf": info["p256-leaf"],
+             "t": {"s": list((t0 + 1).to_bytes(8, "big")), "ns": 0}, "content": list(content), "dump_exit": rc2, "valid": b"The exchange has a valid signature." in so2,
+             "now": p1["date"] == "now", "uri": b(uri), "method": b(p1["method"]), "status": status,
+             "reqflags": [_split_flag(h) for h in reqf], "respflags": [_split_flag(h) for h in respf],
+             "msgdump": list(read(os.path.join(sd, "msg.bin"))), "hdrdump": list(read(os.path.join(sd, "hdr.cbor"))),
              "params": p1, "stderr": (se + se2 + so2[-200:]).decode("latin1")[-400:]}]
 
 
@@ -305,6 +406,45 @@ def sig_cli(rep, pid):
     return n
 
 
+def sxg_cli(rep, pid):
+    """The command-line path of signed-exchange generation (used by C02 and C08 too): gen-signedexchange with header flags
+    of every shape, both dumps, -> dump-signedexchange -verify; judged by Trace_Cli from the flag TEXT and the files."""
+    build_cli()
+    wd = workdir(pid)
+    fix = os.path.join(wd, "fixtures")
+    shutil.rmtree(fix, ignore_errors=True)
+    info = vh(["cli-fixtures", fix])[0]
+    scratch = vlib.fresh(os.path.join(wd, "scratch-sxg"))
+    events = []
+    i = 0
+    for ver in ("1b1", "1b2", "1b3"):
+        for hdr in sorted(HDR_FLAGS):
+            i += 1
+            pl = [{"tool": "gen-certurl", "p": {}}, {"tool": "gen-signedexchange", "p": {"ver": ver, "hdr": hdr, "date": "fixed" if i % 3 == 0 else "now", "method": "HEAD" if i % 4 == 0 else "GET", "out": "stdout" if i % 5 == 0 else "file"}}]
+            sd = vlib.fresh(os.path.join(scratch, "x%d" % i))
+            events += _sxgflags_pipeline(pl, sd, fix, info, "sxgcli%d" % i)
+            shutil.rmtree(sd, ignore_errors=True)
+    outp = os.path.join(wd, "sxgcli.ndjson")
+    cases = {}
+    with open(outp, "w") as f:
+        for e in events:
+            cases[e["case"]] = e
+            f.write(json.dumps(e) + "\n")
+    n, rejects, states = trace_validate("Trace_Cli", pid + "/sxgcli", outp, overrides=True, shards=8, timeout=3000)
+    rep.cov["states"] += states
+    rep.cov["transitions"] += states
+    rep.cov["traces_validated_against_impl"] += n
+    for rj in rejects:
+        c = cases[rj["case"]]
+        for w in rj["why"]:
+            rep.violation("sxgcli:%s:%s:%s" % (c["ver"], c["params"]["hdr"], w[:50]), "gen-signedexchange %s with -requestHeader %s -responseHeader %s -> dump-signedexchange -verify: %s [exits gen=%s dump=%s valid=%s; %s]" % (
+                c["params"], HDR_FLAGS[c["params"]["hdr"]][0], HDR_FLAGS[c["params"]["hdr"]][1], w, c["gen_exit"], c["dump_exit"], c["valid"], c["stderr"][-160:]),
+                {"component": "cli", "event": {k: v for k, v in c.items() if k not in ("file", "content", "leaf", "msgdump", "hdrdump")}, "why": w})
+    rep.add("cli_gen_signedexchange", records=n, rejected=len(rejects))
+    shutil.rmtree(scratch, ignore_errors=True)
+    return n
+
+
 def check_c20(tier):
     rep = Report("C20", tier, level="model_checking")
     rep.cov["rule"] = ("tla/Cli.tla: artefact kinds, tool contracts and pipelines; TLC enumerates every pipeline (gen-bundle -dir over 13 file-name classes x b1/b2 x base URL with / "
@@ -329,7 +469,8 @@ def check_c20(tier):
     sx = 0
     for i, pl in enumerate(sorted(pipelines, key=lambda p: json.dumps(p, sort_keys=True))):
         tool = pl[0]["tool"]
-        if len(pl) > 1 and pl[1]["tool"] == "gen-signedexchange":
+        flags = len(pl) > 1 and pl[1]["tool"] == "gen-signedexchange" and "hdr" in pl[1]["p"]
+        if len(pl) > 1 and pl[1]["tool"] == "gen-signedexchange" and not flags:
             sx += 1
             if tier == "quick" and (sx + vlib.seed()) % 12 != 0:
                 continue
@@ -339,6 +480,8 @@ def check_c20(tier):
             events += _dir_pipeline(pl, sd, fix, info, cid)
         elif tool == "gen-bundle -har":
             events += _har_pipeline(pl, sd, fix, info, cid)
+        elif flags:
+            events += _sxgflags_pipeline(pl, sd, fix, info, cid)
         elif len(pl) > 1 and pl[1]["tool"] == "gen-signedexchange":
             events += _sxg_pipeline(pl, sd, fix, info, cid)
         else:
@@ -365,8 +508,12 @@ def check_c20(tier):
         for w in rj["why"]:
             if c["kind"] == "dirbundle":
                 key = "cli:dir:%s:%s:%s" % (c["names"], c["ver"], w[:40])
-                desc = "gen-bundle -dir with files %s (%s, base path %s): %s [exits gen=%s dump=%s sign=%s dump2=%s marks=%s; %s]" % (
-                    [bytes(x["rel"]).decode("utf-8", "replace") for x in c["files"]], c["ver"], bytes(c["basepath"]).decode(), w, c["gen_exit"], c["dump_exit"], c["sign_exit"], c["dump2_exit"], c["marks"], c["stderr"][-160:])
+                desc = "gen-bundle -dir (spelt %s) with files %s (%s, base path %s): %s [exits gen=%s dump=%s sign=%s dump2=%s marks=%s; %s]" % (
+                    c.get("dirform", "abs"), [bytes(x["rel"]).decode("utf-8", "replace") for x in c["files"]], c["ver"], bytes(c["basepath"]).decode(), w, c["gen_exit"], c["dump_exit"], c["sign_exit"], c["dump2_exit"], c["marks"], c["stderr"][-160:])
+            elif c["kind"] == "sxgflags":
+                key = "cli:sxgflags:%s:%s:%s" % (c["ver"], c["params"]["hdr"], w[:40])
+                desc = "gen-signedexchange %s with -requestHeader %s -responseHeader %s: %s [gen=%s dump=%s valid=%s; %s]" % (
+                    c["params"], HDR_FLAGS[c["params"]["hdr"]][0], HDR_FLAGS[c["params"]["hdr"]][1], w, c["gen_exit"], c["dump_exit"], c["valid"], c["stderr"][-200:])
             elif c["kind"] == "sxgcli":
                 key = "cli:sxg:%s:%s:%s" % (c["ver"], c["params"]["cc"], w[:40])
                 desc = "gen-signedexchange %s -> dump-signedexchange -verify: %s [gen=%s dump=%s valid=%s; %s]" % (c["params"], w, c["gen_exit"], c["dump_exit"], c["valid"], c["stderr"][-200:])
